@@ -277,6 +277,19 @@ def history_stream(res, tier, seed):
                 many = model.calculate_many_marginals([tuple(t) for t in tups])
                 answers += [('calculate_many_marginals', t, many[tuple(t)]) for t in tups]
                 dv = model.datavector()
+            # the model saved and re-loaded at this point of the history must answer from the same (current) joint
+            if step > 0 and r.random() < 0.6:
+                from mbi import GraphicalModel
+                tmpd = tempfile.mkdtemp(prefix='c02hist')
+                try:
+                    path_ = os.path.join(tmpd, 'model.pkl')
+                    GraphicalModel.save(model, path_)
+                    loaded = GraphicalModel.load(path_)
+                    with np.errstate(all='ignore'):
+                        answers += [('project after save/load', t, loaded.project(tuple(t))) for t in tups[:3]]
+                    res.count('history: model saved and re-loaded after in-place parameter changes')
+                finally:
+                    shutil.rmtree(tmpd, ignore_errors=True)
             for path, t, F in answers:
                 spec = gmgen.brute_marginal(dom, joint, list(F.domain.attrs), Fr(total))
                 got = fvals(F)
